@@ -458,8 +458,19 @@ func (fr *frame) callContract(p *Path, e *ast.CallExpr, fi *FuncInfo, recv Value
 			env.Vars[ct.Results[i]] = env.Vars[nm]
 		}
 	}
-	// postconditions: functional ones bind the result, the rest are assumed
+	// postconditions: functional ones bind the result, the rest are assumed; ensures owned by a ground family of the
+	// callee speak about ghost variables of that family and are not visible to callers
+	owned := familyLabels(ct)
 	for _, en := range ct.Ensures {
+		skip := false
+		for _, l := range en.Labels {
+			if owned[l] {
+				skip = true
+			}
+		}
+		if skip {
+			continue
+		}
 		fr.assumeEnsures(p, env, en.Expr, results, nres, fi, site)
 	}
 	if p.Dead {
